@@ -149,7 +149,8 @@ class Coordinator(object):
             # we will need to know the partition info for all our topics
             # to assign them correctly
             metadata_d = self.client.load_metadata_for_topics(*self.topics)
-            metadata_d.addCallback(lambda result: self)
+            # A failed metadata load is retried like a failed coordinator lookup
+            metadata_d.addCallbacks(lambda result: self, _get_coordinator_failed)
             return metadata_d
 
         d = self.client._get_coordinator_for_group(self.group_id)
